@@ -65,14 +65,15 @@ P.update({
          'in every mode with the right flag (C05_*_literals_accepted). Correspondence + an independent reading of the grammars evaluated on implementation outputs: octet values 0-300 in every position, every IPv6 shape, tags, junk around brackets.',
          'Coq proof (parser invariants, both inclusions) + differential correspondence', '6/C05'),
  'C06': ('proof', 'PARTIAL. Proved on the model: abort() unreachable with the shipped table, no NULL callback after a successful setup, allocation balance, eav_init writes every field (regenerated), one-byte look-ahead discipline of the scanners, '
-         'label-buffer bound. Runtime half on the real code: ASan+UBSan+LSan with inputs in exact-size heap blocks, PROT_NONE guard pages after the terminator / before the first byte on the default build, valgrind memcheck with eav_t on uninitialised memory, '
+         'label-buffer bound; and index-level access models of all seven scanners (ASCII local parts, UTF-8 decoder + 6531 scanner, host name, IPv4, IPv6, is_ipaddr) written with the C index arithmetic over a bounds-checked buffer: for every input they return the functional model\'s result, '
+         'hence never read before the first byte or after the terminator and never exceed length+1 iterations; the highest index each real scanner call reads is measured with a moving guard page and must not exceed the access model\'s. Runtime half on the real code: ASan+UBSan+LSan with inputs in exact-size heap blocks, PROT_NONE guard pages after the terminator / before the first byte on the default build, valgrind memcheck with eav_t on uninitialised memory, '
          'callgrind instruction counts at n/2n/4n. The model cannot exhibit compiler-level UB, allocator or libc/libidn2 internals; those are covered only as far as the sanitizers see them.',
-         'Coq proof of the safety logic of the model + sanitizer / guard-page / valgrind runs', '6/C06'),
+         'Coq proof of the safety logic and of index-level access models (refinement to the functional model) + measured read extents, sanitizer / guard-page / valgrind runs', '6/C06'),
  'C10': ('proof', 'Theorems relative to the IDN conversion (a parameter; each needed fact is an explicit hypothesis checked against libidn2 on every generated conversion): U-label and A-label give identical results; the ASCII modes give the A-label the same verdict; '
          'the verdict of the ASCII machinery is invariant under case folding, hence all-ASCII domains get the ASCII-mode verdict or an IDN error; refusals are rejections. Correspondence and the relations on implementation outputs: labels from 8 scripts with hyphen/disallowed/xn-- mutations, long U-labels with short A-labels, every IDN TLD.',
          'Coq proof relative to an oracle + differential / relational testing against libidn2', '6/C10'),
  'C14': ('proof', 'PARTIAL. Theorems: the library has no writable static storage (inventory regenerated from the built libeav.a), and in the model any interleaving gives each thread the outcomes of running alone. '
-         'Runtime half: ThreadSanitizer build, 2-16 threads with own eav_t over all modes, ASCII and IDN domains, seeded yields, per-thread outcomes compared with a sequential pass. Races inside libidn2/glibc and weak-memory effects are outside the model.',
+         'Runtime half: ThreadSanitizer build, 2-16 threads with own eav_t over all modes, ASCII and IDN domains, seeded yields, per-thread outcomes compared with a sequential pass, plus cold starts (no library call before the threads are released together). Races inside libidn2/glibc and weak-memory effects are outside the model.',
          'Coq proof (frame property of the model, static-storage inventory) + ThreadSanitizer harness', '6/C14'),
  'C17': ('proof', 'Theorems: RFC20 option rejects exactly the default-accepted local parts with #^`{|}~ outside quotes; underscore option = default build on the name with _ read as a letter (same code); follow-5322 = mode 5322 on ASCII (same code); '
          'ASCII modes see only the underscore option, mode 6531 only the three options. The library is built with the repository Makefile in 5 (8) configurations, each compared with the model under that configuration, and the relations to the default build are evaluated on implementation outputs.',
